@@ -71,7 +71,11 @@ pub fn c09(seed: u64, budget: usize) -> Report {
         let mut rep = Report::new();
         let mut r = Rng::new(seed ^ (th * 50021 + 9));
         for _ in 0..(budget / 64 / 256 + 1) {
-            let m = *r.pick(&STD7); let t = *r.pick(&TC14); let p = loop { let p = *r.pick(&CP11); if p != "ST428" { break p; } };
+            let mut m = *r.pick(&STD7); let t = *r.pick(&TC14); let mut p = loop { let p = *r.pick(&CP11); if p != "ST428" { break p; } };
+            // one configuration in five uses a matrix whose coefficients the crate derives from the primaries (the statement's
+            // count lists the 7 standard matrices; these are the other configurations the crate accepts, and decode and encode must
+            // agree for them as well)
+            if r.below(5) == 0 { m = *r.pick(&DERIVED5); p = *r.pick(&DERIVED_PRIMS); }
             let full = r.below(2) == 1; let bd = 8 + r.below(9) as u32; let (ssx, ssy) = *r.pick(&SS);
             let cfg = cfg_of(bd as u8, ssx, ssy, full, mc_of(m).unwrap(), tc_of(t).unwrap(), cp_of(p).unwrap());
             // chroma grids of every shape: mostly 16x16, but also a single column / row and tiny grids (the encoder's
@@ -185,6 +189,31 @@ pub fn c11(seed: u64, budget: usize) -> Report {
                 rep.evaluated += 5;
                 if !ok { rep.fail("float conversion is not pointwise", desc.clone(), format!("pixel {}", i), "".into()); } }
             if x.width() != w || x.height() != h || hs.width() != w || lb.height() != h { rep.fail("dimensions not preserved", desc.clone(), "".into(), "".into()); }
+            // self-feeding sequences: pixel k+1 EQUALS the converted value of pixel k, for each float conversion (a conversion that
+            // carries state from one pixel to the next - a cache keyed on the wrong value, a run shortcut - shows only here)
+            {
+                let tcv = tc_of(t).unwrap(); let cpv = cp_of(p).unwrap();
+                let one_l = |q: [f32; 3]| LinearRgb::new(vec![q], 1, 1).unwrap();
+                type F = Box<dyn Fn(Vec<[f32; 3]>, usize) -> Vec<[f32; 3]>>;
+                let convs: Vec<(&str, F)> = vec![
+                    ("LinearRgb->Xyb", Box::new(|d, n| Xyb::from(LinearRgb::new(d, n, 1).unwrap()).into_data())),
+                    ("Xyb->LinearRgb", Box::new(|d, n| LinearRgb::from(Xyb::new(d, n, 1).unwrap()).into_data())),
+                    ("LinearRgb->Hsl", Box::new(|d, n| Hsl::from(LinearRgb::new(d, n, 1).unwrap()).into_data())),
+                    ("Hsl->LinearRgb", Box::new(|d, n| LinearRgb::from(Hsl::new(d, n, 1).unwrap()).into_data())),
+                    ("Rgb->LinearRgb", Box::new(move |d, n| LinearRgb::try_from(Rgb::new(d, n, 1, tcv, cpv).unwrap()).unwrap().into_data())),
+                    ("LinearRgb->Rgb", Box::new(move |d, n| Rgb::try_from((LinearRgb::new(d, n, 1).unwrap(), tcv, cpv)).unwrap().into_data())),
+                ];
+                let _ = one_l;
+                for (name, f) in convs.iter() {
+                    let starts = [[r.unit(), r.unit(), r.unit()], { let v = r.unit(); [v, v, v] }, [0.0, 0.0, 0.0], [1.0, 0.0, 0.0], { let v = r.unit(); [v, v, r.unit()] }];
+                    let mut seq: Vec<[f32; 3]> = vec![];
+                    for st in starts { let mut cur = st; for _ in 0..4 { seq.push(cur); let nx = f(vec![cur], 1)[0]; if !nx.iter().all(|c| c.is_finite()) { break; } cur = nx; } seq.push(st); }
+                    let whole = f(seq.clone(), seq.len());
+                    for (i, q) in seq.iter().enumerate() { rep.evaluated += 1;
+                        let e = f(vec![*q], 1);
+                        if bits(&[whole[i]]) != bits(&e) { rep.fail("float conversion is not pointwise (self-feeding sequence)", format!("{} {:?}/{:?} position {} of {:?}", name, t, p, i, seq), format!("{:?}", whole[i]), format!("{:?}", e[0])); } }
+                }
+            }
         }
         rep
     }).collect();
